@@ -17,6 +17,7 @@ import asyncio
 import errno
 import gzip as gzip_mod
 import hashlib
+import signal
 
 from vf import core, logmon, vloop, wire
 from vf.vloop import settle
@@ -57,12 +58,14 @@ SHARD_TIMEOUT = {"quick": 240, "thorough": 3000}
 
 HANDLERS = ["raw_sync", "raw_async", "app_sync", "app_async", "app_stream"]
 REQ_FAULTS = ["close", "reset", "half", "shutdown"]
+BIG = b"x" * 1500000      # larger than the AF_UNIX socket buffer: stays in the write buffer while the peer does not read
 RESP_POINTS = ["before_handler", "handler_awaits", "after_flush", "finish_undrained", "between_pipelined"]
 
 
 def EXHAUSTIVE(tier):
-    return ("byte-offset dimension: every offset 0..len(stream) of every base stream x {close, reset, half-close, "
-            "server shutdown} (+ body-timeout at every offset inside a body)"
+    return ("byte-offset dimension: every offset 0..len(stream) of every base stream of <= 2000 bytes x {close, reset, "
+            "half-close, server shutdown, body/idle timeout} (the two 16 KiB streams of the thorough tier: every offset of "
+            "the first 300 and last 8 bytes, every 37th in between)"
             + ("; every handler kind at every offset" if tier == "thorough" else "; handler kind rotates with the offset"))
 
 
@@ -173,8 +176,8 @@ class Gate:
 
 
 class RawDelegate(httputil.HTTPServerConnectionDelegate):
-    def __init__(self, gate, asynchronous, mode):
-        self.gate, self.asynchronous, self.mode = gate, asynchronous, mode
+    def __init__(self, gate, asynchronous, mode, slow=False):
+        self.gate, self.asynchronous, self.mode, self.slow = gate, asynchronous, mode, slow
 
     def start_request(self, server_conn, request_conn):
         return RawMsg(self, request_conn)
@@ -193,7 +196,10 @@ class RawMsg(httputil.HTTPMessageDelegate):
         return None
 
     async def _pause(self):
-        await settle()
+        if self.o.slow:
+            await asyncio.sleep(0.7)     # virtual seconds: longer than what is left of body_timeout after one chunk
+        else:
+            await settle()
 
     def data_received(self, chunk):
         if self.o.asynchronous:
@@ -201,14 +207,15 @@ class RawMsg(httputil.HTTPMessageDelegate):
         return None
 
     def finish(self):
-        if self.o.asynchronous or self.o.mode != "plain":
+        if self.o.asynchronous or self.o.mode not in ("plain", "big"):
             asyncio.ensure_future(self._respond())
         else:
             self._write_all()
 
     def _write_all(self):
+        body = BIG if self.o.mode == "big" else b"ok"
         self.conn.write_headers(httputil.ResponseStartLine("HTTP/1.1", 200, "OK"),
-                                httputil.HTTPHeaders({"Content-Length": "2"}), b"ok")
+                                httputil.HTTPHeaders({"Content-Length": str(len(body))}), body)
         self.conn.finish()
         self.o.gate.finished += 1
 
@@ -241,7 +248,7 @@ class RawMsg(httputil.HTTPMessageDelegate):
         pass
 
 
-def make_app(kind, gate, mode):
+def make_app(kind, gate, mode, slow=False):
     class Base(web.RequestHandler):
         def on_finish(self):
             gate.handler_events.append(("on_finish", id(self)))
@@ -250,7 +257,7 @@ def make_app(kind, gate, mode):
             gate.handler_events.append(("on_connection_close", id(self)))
 
         def _respond_sync(self):
-            self.write(b"ok")
+            self.write(BIG if mode == "big" else b"ok")
 
         async def _respond(self):
             if mode == "handler_awaits":
@@ -265,6 +272,9 @@ def make_app(kind, gate, mode):
                 await gate.ev.wait()
                 self.write(b"part2")
                 await self.flush()
+            elif mode == "big":
+                await settle()
+                self.write(BIG)          # finish() follows; the response cannot drain while the peer does not read
             else:
                 await settle()
                 self.write(b"ok")
@@ -272,7 +282,7 @@ def make_app(kind, gate, mode):
                 await settle()
             gate.finished += 1
 
-    if kind == "app_sync" and mode == "plain":
+    if kind == "app_sync" and mode in ("plain", "big"):
         class H(Base):
             def get(self):
                 self._respond_sync()
@@ -290,7 +300,10 @@ def make_app(kind, gate, mode):
                 await settle()
 
             async def data_received(self, chunk):
-                await settle()
+                if slow:
+                    await asyncio.sleep(0.7)
+                else:
+                    await settle()
 
             async def get(self):
                 await self._respond()
@@ -298,12 +311,12 @@ def make_app(kind, gate, mode):
     return web.Application([(r"/.*", H)])
 
 
-def make_target(kind, gate, mode):
+def make_target(kind, gate, mode, slow=False):
     if kind == "raw_sync":
         return RawDelegate(gate, False, mode)
     if kind == "raw_async":
-        return RawDelegate(gate, True, mode)
-    return make_app(kind, gate, mode)
+        return RawDelegate(gate, True, mode, slow)
+    return make_app(kind, gate, mode, slow)
 
 
 # ---------------------------------------------------------------------------
@@ -312,10 +325,19 @@ def make_target(kind, gate, mode):
 def shards(tier, seed):
     out = []
     nb = len(bases(tier))
+    if tier == "quick":
+        # few, balanced shards: process start-up dominates the cost of a shard here
+        for j in range(7):
+            out.append({"kind": "offsets", "bases": list(range(j, nb, 7))})
+        for j in range(3):
+            out.append({"kind": "timeouts", "bases": list(range(j, nb, 3))})
+        out.append({"kind": "response", "part": 0})
+        out.append({"kind": "response", "part": 1})
+        return out
     for b in range(nb):
-        out.append({"kind": "offsets", "base": b})
-    for b in range(nb):
-        out.append({"kind": "timeouts", "base": b})
+        out.append({"kind": "offsets", "bases": [b]})
+    for j in range(6):
+        out.append({"kind": "timeouts", "bases": list(range(j, nb, 6))})
     out.append({"kind": "response", "part": 0})
     out.append({"kind": "response", "part": 1})
     return out
@@ -328,9 +350,17 @@ def gen_cases(spec):
 
 
 def _gen_cases(spec):
+    if "bases" in spec:
+        for b in spec["bases"]:
+            yield from _gen_cases_one(dict(spec, base=b))
+    else:
+        yield from _gen_cases_one(spec)
+
+
+def _gen_cases_one(spec):
     tier = spec["tier"]
     B = bases(tier)
-    rng = core.rng_for(spec["seed"], PROP, spec["shard"])
+    rng = core.rng_for(spec["seed"], PROP, f'{spec["kind"]}{spec.get("base", spec.get("part"))}')
     if spec["kind"] == "offsets":
         base = B[spec["base"]]
         data = stream_of(base)
@@ -356,6 +386,11 @@ def _gen_cases(spec):
             for h in hs:
                 yield {"base": spec["base"], "name": base[0], "offset": k, "fault": "timeout", "handler": h, "phase": "request",
                        "cuts": "whole"}
+            if base[2].get("chunk_size") and len(data) <= 2000 and k % 3 == 0:
+                # body timeout expiring while a slow asynchronous data_received is suspended and more body is buffered
+                for h in ("raw_async", "app_stream"):
+                    yield {"base": spec["base"], "name": base[0], "offset": k, "fault": "timeout", "handler": h,
+                           "phase": "request", "cuts": "whole", "slow": True}
     else:
         # response-phase points
         names = [b[0] for b in B]
@@ -392,6 +427,10 @@ class Livelock(BaseException):
     pass
 
 
+def _watchdog(signum, frame):
+    raise RuntimeError("C05 harness watchdog: one case ran for more than 90 s of wall clock")
+
+
 def _guard_connections(server, limit=25):
     """Structural livelock witness: close_all_connections() closing the same connection object again and again."""
     for conn in list(server._connections):
@@ -416,9 +455,8 @@ def execute(case, tier):
     data = stream_of(base)
     phase = case["phase"]
     point = phase[5:] if phase.startswith("resp:") else None
-    mode = point if point in ("handler_awaits", "after_flush") else ("gated" if point == "between_pipelined" else "plain")
-    if point == "between_pipelined":
-        mode = "handler_awaits"
+    mode = {"handler_awaits": "handler_awaits", "after_flush": "after_flush", "between_pipelined": "handler_awaits",
+            "finish_undrained": "big"}.get(point, "plain")
     obs = {"events": []}
     rng = core.rng_for(0, PROP, repr(sorted(case.items())))
 
@@ -431,20 +469,13 @@ def execute(case, tier):
                 yield ("err", errno.ECONNRESET) if flag["reset"] else None
 
         wplan = None
-        if point == "finish_undrained":
-            def wplan_gen():
-                while not flag.get("unblock"):
-                    yield "block"
-                while True:
-                    yield None
-            wplan = wplan_gen()
-        elif case.get("wplan") == "dribble":
-            wplan = iter([1, "block", 2, 1, "block", 3] * 50)
+        if case.get("wplan") == "dribble" and point != "finish_undrained":
+            wplan = iter([1, "block", 2, 1, "block", 3] * 20)
         kw = dict(base[2])
         if case["fault"] == "timeout":
             kw["body_timeout"] = 1.0
             kw["idle_connection_timeout"] = 1.0
-        target = make_target(case["handler"], gate, mode)
+        target = make_target(case["handler"], gate, mode, case.get("slow", False))
         rig = wire.ServerRig(target, read_plan=plan(), write_plan=wplan, **kw)
         peer = rig.connect()
         obs["log"] = rig.log
@@ -471,11 +502,21 @@ def execute(case, tier):
             await settle()
             if fault == "timeout":
                 await asyncio.sleep(3.0)          # virtual seconds: body_timeout / idle timeout expire
+                obs["closed_by_timeout"] = all(st.closed() for st in rig.streams)
+                await asyncio.sleep(3.0)          # slow handlers run to completion
             elif fault != "shutdown":
                 inject()
             await settle(2)
         else:
-            if point == "before_handler":
+            if point == "finish_undrained":
+                # the peer sends and then never reads: the (large) response stays in the server's write buffer
+                peer.sock.send(data)
+                await settle(4)
+                obs["undrained"] = sum(len(getattr(st, "_write_buffer", None) or b"") for st in rig.streams)
+                if fault != "shutdown":
+                    inject()
+                await settle(2)
+            elif point == "before_handler":
                 # request bytes and the disconnect become visible to the server in the same loop iteration
                 peer.sock.send(data)
                 if fault != "shutdown":
@@ -507,11 +548,9 @@ def execute(case, tier):
             sd = asyncio.ensure_future(rig.server.close_all_connections())
             await settle(2)
             gate.ev.set()
-            flag["unblock"] = True
             await sd
         else:
             gate.ev.set()
-            flag["unblock"] = True
             await settle(3)
             await rig.server.close_all_connections()
         obs["shutdown_vtime"] = loop.time() - t0
@@ -552,7 +591,13 @@ def run_case(case, ctx):
     base = B[case["base"]]
     data = stream_of(base)
     with logmon.LogMon() as lm:
-        obs = execute(case, tier)
+        # watchdog only (never a verdict): a case that does not come back is a harness failure => shard error => INCONCLUSIVE
+        signal.signal(signal.SIGALRM, _watchdog)
+        signal.alarm(90)
+        try:
+            obs = execute(case, tier)
+        finally:
+            signal.alarm(0)
     sent = len(data) if case["offset"] is None else case["offset"]
     wit = {"case": {k: v for k, v in case.items()}, "stream": data[:300], "sent": sent,
            "log": [(e[0],) + tuple(e[1:2]) + ((len(e[2]),) if e[0] == "data" else ()) for e in obs.get("log", [])][:60]}
@@ -580,6 +625,7 @@ def run_case(case, ctx):
     # --- exactly-once accounting per request id --------------------------------------------------------
     per, order = {}, []
     bad_order = None
+    data_after_terminal = False
     for e in obs["log"]:
         if e[0] == "conn_close":
             continue
@@ -588,8 +634,11 @@ def run_case(case, ctx):
             per[rid] = {"headers": 0, "finish": 0, "close": 0, "data": b"", "terminal": False}
             order.append(rid)
         p = per[rid]
-        if p["terminal"]:
-            bad_order = (rid, e[0])
+        if p["terminal"] and e[0] == "data":
+            # Not pinned by the statement (it only counts finish/close and asks for a prefix): counted, never gated.
+            # Seen on the pinned tree when body_timeout fires while a slow async data_received is suspended and more
+            # body is buffered: the orphaned body reader keeps feeding the delegate after on_connection_close.
+            data_after_terminal = True
         if e[0] == "headers":
             p["headers"] += 1
         elif e[0] == "data":
@@ -641,9 +690,20 @@ def run_case(case, ctx):
         else:
             ctx.check(False, "accounting/request-not-in-stream", "a request id beyond the requests that were sent got headers", w)
     if bad_order:
-        ctx.check(False, "accounting/event-after-terminal-notification",
-                  "a delegate received an event after finish/on_connection_close (or data before headers)",
-                  dict(wit, which=bad_order))
+        ctx.check(False, "accounting/data-before-headers_received",
+                  "a delegate received body data before headers_received", dict(wit, which=bad_order))
+    if data_after_terminal:
+        ctx.count("unspecified_data_received_after_close_notification")
+    if case["phase"].startswith("resp:"):
+        pt = case["phase"][5:]
+        reached = {"handler_awaits": obs.get("waiting", 0) >= 1, "after_flush": obs.get("waiting", 0) >= 1,
+                   "finish_undrained": obs.get("undrained", 0) > 0, "between_pipelined": obs.get("rx_before_fault", 0) > 0,
+                   "before_handler": True}[pt]
+        ctx.count(("point_reached:" if reached else "point_missed:") + pt)
+    if case["fault"] == "timeout":
+        ctx.count("timeout_closed_connection" if obs.get("closed_by_timeout") else "timeout_connection_survived")
+    if case.get("slow"):
+        ctx.count("slow_handler_cases")
     if lm.uncaught():
         ctx.count("uncaught_log_records(informational)")
     _mark(case, ctx, data)
@@ -651,7 +711,8 @@ def run_case(case, ctx):
 
 def _mark(case, ctx, data):
     nontriv = case["phase"] != "request" or 0 < case["offset"] < len(data)
-    canon = (case["name"], case["offset"], case["fault"], case["handler"], case["phase"], case.get("wplan"), case.get("cuts"))
+    canon = (case["name"], case["offset"], case["fault"], case["handler"], case["phase"], case.get("wplan"), case.get("cuts"),
+             case.get("slow"))
     ctx.mark(canon, nontriv)
     if nontriv and case["offset"] not in (1, 2, 3):
         ctx.sample({k: v for k, v in case.items()})
